@@ -41,6 +41,7 @@ const kvBucket = "vb"
 var (
 	amtScale    = big.NewInt(1)
 	amtLeadZero = false
+	maxBlockMB  = 0 // 0 = fixture default (16 MB)
 )
 
 func amtBytes(a int64, output bool) []byte {
@@ -70,6 +71,7 @@ type catTx struct {
 	Reads  map[string]string `json:"reads"`
 	Writes map[string]string `json:"writes"`
 	Bad    string            `json:"bad"`
+	Big    bool              `json:"big"`
 }
 type catalog struct {
 	Tx      map[string]catTx `json:"tx"`
@@ -146,7 +148,7 @@ func newXSim(name string, cat *catalog, window int) (*xsim, error) {
 		pre[o.To] = new(big.Int).Mul(big.NewInt(o.Amt), amtScale).String()
 		order = append(order, o.To)
 	}
-	g := fx.Genesis(fx.GenesisOpts{Predist: pre, PredistList: order, Award: new(big.Int).Mul(big.NewInt(cat.Award), amtScale).String(), Window: window, Miner: "m",
+	g := fx.Genesis(fx.GenesisOpts{Predist: pre, PredistList: order, Award: new(big.Int).Mul(big.NewInt(cat.Award), amtScale).String(), Window: window, Miner: "m", MaxBlockMB: maxBlockMB,
 		NoDecay: amtScale.Cmp(big.NewInt(1)) != 0}) // CalcAward's decay path works on int64: scaled awards need the exact path
 	s := &xsim{cat: cat, name: name, window: window, genesis: g, txs: map[string]*pb.Transaction{}, names: map[string]string{},
 		ids: map[string]int{}, blocks: map[int]*pb.InternalBlock{}, n: 1, recover: make(chan struct{}, 16)}
@@ -199,6 +201,9 @@ func (s *xsim) tx(name string) (*pb.Transaction, error) {
 		return nil, fmt.Errorf("transaction %q is not in the catalogue", name)
 	}
 	tx := &pb.Transaction{Version: 3, Nonce: "n-" + name, Timestamp: 1, Desc: []byte(name)}
+	if c.Big { // 300 KB description: three of them exceed the pool budget of a 1 MB block (0.8 MB)
+		tx.Desc = append(tx.Desc, bytes.Repeat([]byte{'#'}, 300*1024)...)
+	}
 	signers := []string{}
 	addSigner := func(a string) {
 		for _, x := range signers {
@@ -745,6 +750,7 @@ func xstateReplay(args []string) error {
 	faultPct := fs.Int("faults", 0, "percentage of operations whose (j+1)-th storage write is made to fail (C05)")
 	replicaOn := fs.Bool("replica", false, "after every mined block replay its chain on a fresh replica (C13)")
 	cutsOn := fs.Bool("cuts", false, "reopen a node after every prefix of each operation's storage writes (crash points)")
+	fs.IntVar(&maxBlockMB, "maxmb", 0, "max block size of the chain in MB (0 = 16)")
 	scale := fs.String("scale", "1", "factor applied to every abstract amount (decimal)")
 	enc := fs.String("enc", "", "lz = outputs carry a leading zero byte")
 	fs.Parse(args)
